@@ -298,7 +298,9 @@ func importNud(p *parser, t *token) *token {
 		for p.Token.Symbol != ")" {
 			if p.Token.Symbol == "(name)" {
 				t.Append(p.Advance("(name)"))
-				t.Append(p.Advance("(string)"))
+				path := p.Advance("(string)")
+				path.Unquote() // a malformed path is a parse error here; the loader unquotes it outside any recover
+				t.Append(path)
 			} else {
 				appendAlias(p, t)
 			}
